@@ -23,8 +23,8 @@ import tracecheck
 import traceprep
 from common import Inconclusive, build_harness, log
 
-PREFIXES = ["healthy-timeout", "initerror", "crash", "timeout", "extcrash", "extiniterror", "one-ext-then-more"]
-SUFFIXES = ["healthy", "crash", "early-internal", "timeout"]
+PREFIXES = ["healthy-timeout", "initerror", "crash", "timeout", "extcrash", "extiniterror", "one-ext-then-more", "ext-shutdown-error"]
+SUFFIXES = ["healthy", "crash", "early-internal", "timeout", "init-crash"]
 
 
 def prefix(s, rnd, kind):
@@ -68,6 +68,22 @@ def prefix(s, rnd, kind):
             if kind == "extcrash":
                 s.exit("ext:e1", signal=9)
             s.wait(it)     # one-ext-then-more: the runtime does not answer -> timeout
+    elif kind == "ext-shutdown-error":
+        # the extension reports an error while the timeout reset is shutting the environment down: the fault
+        # recorded then belongs to the generation that is going away
+        subs = {"e1": ["INVOKE", "SHUTDOWN"]}
+        s.await_exec(base="e1")
+        s.register("ext:e1", subs["e1"])
+        s.await_exec(kind="rt")
+        tags = {"ext:e1": s.poll("ext:e1"), "rt": s.poll("rt")}
+        it = s.invoke(size=4, seed=1)
+        s.wait(tags["rt"])
+        s.wait(tags["ext:e1"])
+        t = s.poll("ext:e1")
+        s.wait(t)           # SHUTDOWN
+        s.call("ext:e1", "exterror", which="exit", errType="Extension.Boom")
+        s.exit("ext:e1", code=1)
+        s.wait(it)
 
 
 def suffix(s, rnd, kind, subs):
@@ -89,6 +105,11 @@ def suffix(s, rnd, kind, subs):
     for name in subs:
         tags["ext:" + name] = s.poll("ext:" + name)
     s.await_exec(kind="rt", since=m)
+    if kind == "init-crash":
+        # the new generation fails on its own: the fault reported for it is its own first one
+        s.exit("rt", code=3)
+        s.wait(it)
+        return
     tags["rt"] = s.call("rt", "next", async_=True)
     s.wait(tags["rt"])
     listeners = ["ext:" + n for n in subs if "INVOKE" in subs[n]] + ["int:" + n for n in internal if "INVOKE" in internal[n]]
@@ -109,7 +130,7 @@ def suffix(s, rnd, kind, subs):
 
 
 def one(sid, rnd, pre, suf):
-    ext1 = ["e1"] if pre in ("extcrash", "extiniterror", "one-ext-then-more") else []
+    ext1 = ["e1"] if pre in ("extcrash", "extiniterror", "one-ext-then-more", "ext-shutdown-error") else []
     # the suffix runs with the same directory (it cannot change), subscriptions may differ
     s = Scn(sid, ext=ext1, timeout_ms=500, onTerm={"e1": "exit"}, opWaitMs=4000)
     s.meta(family="reset-suffix", prefix=pre, suffix=suf)
